@@ -55,7 +55,13 @@ TEXT["C17"] = dict(
   note="Model follows the documented contracts (DESIGN §5 C17); best-header is judged for headers accepted through header delivery within one node instance (a restart re-bases it on the chain tip).",
   ref="DESIGN.md §5 C17")
 
-READY = ["C01", "C02", "C03", "C04", "C09", "C17", "C19"]
+TEXT["C14"] = dict(
+  technique="deterministic simulation: generated vote/timestamp histories on forked trees under seeded BIP9 deployment definitions; deployment state, next block version and rule activation compared with a cache-less BIP9 state machine at the tip and at arbitrary blocks in seeded query order, across restarts",
+  level="For seeded deployment definitions (window, threshold, start/timeout by MTP, speedy mode, min activation height, always-active height) and block trees whose windows end at threshold-1/threshold with different histories on sibling branches, ThresholdState / IsDeploymentActive / CalcNextBlockVersion at the tip and (through a read-only tagged hook) the state after arbitrary blocks of any branch, in seeded order so that the cache is shared and polluted, equal an independent model evaluated from genesis without cache; terminal states are absorbing; CSV-gated mutants flip verdict exactly at activation.",
+  note="Only well-formed definitions (start < timeout); the always-active height is an explicit override and is exempt from 'Failed is never left'; the hook VerifDeploymentStateAt only exposes the unexported per-node query.",
+  ref="DESIGN.md §5 C14")
+
+READY = ["C01", "C02", "C03", "C04", "C09", "C14", "C17", "C19"]
 
 def main():
     verif = os.path.dirname(os.path.abspath(__file__))
